@@ -252,6 +252,60 @@ def case_aa_elem(g):
             "stmts": pre + [f"{lhs} = {rhs}"], "trans": "ArrayAssignment2LoopsTrans", "target": ["assign"]}
 
 
+def case_aa2(g):
+    """rank-2 section assignment (two ranges -> loop nest): safe / overlapping / differently strided / element reads"""
+    r = g.rng
+    mats = ["m", "q", "p2"]
+    arr = r.choice(mats)
+    flavour = r.choice(["safe", "safe", "safe", "overlap", "stride", "elem", "whole"])
+
+    def rng_txt(lo, hi, cnt, st, start=None, full_ok=True):
+        span = (cnt - 1) * st
+        starts = [s0 for s0 in range(lo, hi + 1) if lo <= s0 + span <= hi]
+        s0 = start if start in starts else r.choice(starts)
+        e0 = s0 + span
+        if full_ok and st == 1 and s0 == lo and e0 == hi and r.random() < 0.5:
+            return ":", s0
+        return f"{g.sym(s0)}:{g.sym(e0)}" + ("" if st == 1 else f":{st}"), s0
+
+    def sec(a, c1, c2, s1, s2, st1=None, st2=None, full_ok=True):
+        (l1, h1), (l2, h2) = R.ARRAYS[a]
+        t1, b1 = rng_txt(l1, h1, c1, s1, st1, full_ok)
+        t2, b2 = rng_txt(l2, h2, c2, s2, st2, full_ok)
+        return f"{a}({t1},{t2})", b1, b2
+
+    if flavour == "whole":
+        a2 = r.choice([x for x in mats if x != arr])
+        stmt = r.choice([f"{arr} = {a2} * 2.0 + {arr}", f"{arr}(:,:) = abs({a2}) + {arr}(:,:) * x", f"{arr} = max({a2}, {arr}) - y"])
+        return {"kind": "aa", "flavour": "rank2-whole", "stmts": [stmt], "trans": "ArrayAssignment2LoopsTrans", "target": ["assign"]}
+    c1, c2 = r.choice([1, 2, 3, 4]), r.choice([1, 2, 3, 4])
+    s1 = r.choice([1, 1, 1, -1]) if c1 > 2 else r.choice([1, 1, 2, -1])
+    s2 = r.choice([1, 1, 1, -1]) if c2 > 2 else r.choice([1, 1, 2, -1])
+    lhs, b1, b2 = sec(arr, c1, c2, s1, s2)
+
+    def leaf(first=False):
+        x = r.random()
+        if not first and x < 0.25:
+            return g.scalar_leaf(elements=(flavour != "safe"))
+        a = r.choice(mats)
+        if a == arr:
+            if flavour == "overlap" and r.random() < 0.7:
+                t, _, _ = sec(arr, c1, c2, s1, s2, b1 + r.choice([-1, 0, 1]), b2 + r.choice([-1, 1]), full_ok=False)
+                return t
+            if flavour == "elem" and r.random() < 0.7:
+                return g.element(arr)
+            return lhs
+        if flavour == "stride" and r.random() < 0.5:
+            ns1 = r.choice([x for x in (1, 2, -1) if x != s1 and (c1 - 1) * abs(x) <= 3])
+            return sec(a, c1, c2, ns1, s2)[0]
+        return sec(a, c1, c2, s1, s2)[0]
+
+    a, b = leaf(True), leaf()
+    rhs = r.choice([f"{a} + {b}", f"{a} * {b} - x", f"max({a}, {b})", f"abs({a}) + {b} * 2.0", a])
+    return {"kind": "aa", "flavour": "rank2-" + flavour, "stmts": [f"{lhs} = {rhs}"], "trans": "ArrayAssignment2LoopsTrans",
+            "target": ["assign"]}
+
+
 def scalar_target(g):
     r = g.rng
     return r.choice(["x", "y", "z", "r(2)", r.choice(["r(k)", "r(n-1)", "r(3)"]), "m(2,3)", r.choice(["q(1,3)", "q(k,n)"])])
@@ -409,13 +463,16 @@ def case_dot(g):
     form = lambda v: r.choice([v, v, f"{v}(:)"])
     a1, a2 = form(v1), form(v2)
     flavour = "vec"
-    if r.random() < 0.15:
-        a1, a2, flavour = "m(:,2)", r.choice(["p2(:,k)", "v", "m(:,3)"]), "slice"
+    lbs = [R.ARRAYS[v1][0][0], R.ARRAYS[v2][0][0]]
+    if r.random() < 0.3:
+        sl = {"m(:,2)": 1, "p2(:,k)": 1, "v": 1, "m(:,3)": 1, "q(:,3)": 0, "w": 0, "q(:,n)": 0, "u": 2, "r(:)": 1}
+        a1, a2 = r.choice(list(sl)), r.choice(list(sl))
+        lbs, flavour = [sl[a1], sl[a2]], "slice"
     call = f"dot_product({a1}, {a2})"
     tgt = r.choice(["x", "y", "r(2)"]) if pool is V10 else r.choice(["x", "y", "z"])
     rhs = r.choice([call, call, f"1.0 + {call} * 2.0", f"{tgt} + {call}"])
     return {"kind": "dot", "flavour": flavour, "stmts": [f"{tgt} = {rhs}"], "trans": "DotProduct2CodeTrans",
-            "target": ["intrinsic", "DOT_PRODUCT", 0], "lbs": [R.ARRAYS[v1][0][0], R.ARRAYS[v2][0][0]] if flavour == "vec" else [1, 1]}
+            "target": ["intrinsic", "DOT_PRODUCT", 0], "lbs": lbs}
 
 
 def case_matmul(g):
@@ -425,7 +482,7 @@ def case_matmul(g):
         lbs = [R.ARRAYS[res][0][0], R.ARRAYS[a1][0][0], R.ARRAYS[a2][0][0], R.ARRAYS[a1][1][0], R.ARRAYS[res][1][0], R.ARRAYS[a2][1][0]]
         aligned = lbs[0] == lbs[1] and lbs[2] == lbs[3] and lbs[4] == lbs[5]
         return {"kind": "matmul", "flavour": "matmat", "stmts": [f"{res} = matmul({a1}, {a2})"], "trans": "Matmul2CodeTrans",
-                "target": ["intrinsic", "MATMUL", 0], "aligned": aligned}
+                "target": ["intrinsic", "MATMUL", 0], "aligned": aligned, "names": [res, a1, a2]}
     mat = r.choice(["m", "m", "p2", "q"])
     res, vec = r.sample(V4, 2)
     if r.random() < 0.6:
@@ -484,12 +541,36 @@ def model_line(case, ap, names):
     from psyclone.psyir import nodes as N
     stmt = ap.orig_stmt
     kind = case["kind"]
-    real = None if ap.refused else R.ex_stmts(ap.new_stmts, names)
+    real = None
+    if not ap.refused:
+        try:
+            real = R.ex_stmts(ap.new_stmts, names)
+        except (R.OutOfDomain, minif.Unsupported):
+            if not (kind == "misc" and case["flavour"] == "ref2range"):
+                raise
 
     def fresh(prefix):
         c = [n for n in ap.new_names if n.startswith(prefix)]
         return names.id(c[0]) if c else names.id(prefix + "__unused")
 
+    if kind == "aa" and isinstance(stmt.lhs, N.ArrayReference) and len(stmt.lhs.indices) == 2 and \
+            all(isinstance(x, N.Range) for x in stmt.lhs.indices):
+        # two ranges -> loop nest (model transAA2)
+        if R.has_bad_call(stmt.rhs):
+            raise R.OutOfDomain("non-elemental call in a rank-2 assignment")
+        if ap.refused and R.refusal_class(ap.refused).startswith("other:"):
+            raise R.OutOfDomain("refusal reason outside the model")
+        idxs = sorted((n for n in ap.new_names if n.startswith("idx")),
+                      key=lambda n: int(n.split("_")[1]) if "_" in n else -1)      # creation order: outer loop first
+        i2 = names.id(idxs[0]) if idxs else names.id("idx__a")
+        i1 = names.id(idxs[1]) if len(idxs) > 1 else names.id("idx__b")
+        line = ["aa2", i2, i1, R.sec2_of(stmt.lhs, names), R.aexpr2_of(stmt.rhs, names)]
+
+        def cmp2(ans):
+            if ans[0] == "refuse":
+                return ap.refused is not None and R.refusal_class(ap.refused) == ans[1], ans
+            return ap.refused is None and R.block(ans[1]) == real, ans
+        return line, cmp2
     if kind == "aa":
         if len(stmt.lhs.walk(N.Range)) != 1 or not isinstance(stmt.lhs, N.ArrayReference):
             raise R.OutOfDomain("lhs")
@@ -558,20 +639,48 @@ def model_line(case, ap, names):
             return ap.refused is None and R.block(ans[1]) == real, ans
         return line, cmp
     if kind == "dot":
-        if ap.refused or case["flavour"] != "vec":
+        if ap.refused:
             raise R.OutOfDomain("dot")
         call = R.pick(stmt, case["target"])
-        vecs = [["vec", names.id(a.name), R.ARRAYS[a.name.lower()][0][0], R.ARRAYS[a.name.lower()][0][1]] for a in call.arguments]
-        line = ["dot", fresh("res_dot"), fresh("i"), vecs[0], vecs[1], R.asg_of_sexp(real[-1])]
+        secs = [R.sec_of(a, names) for a in call.arguments]
+        line = ["dots", fresh("res_dot"), fresh("i"), secs[0], secs[1], R.asg_of_sexp(real[-1])]
         return line, (lambda ans: (R.block(ans) == real, ans))
     if kind == "matmul":
-        if ap.refused or case["flavour"] != "matvec":
+        if ap.refused:
             raise R.OutOfDomain("matmul")
+        if case["flavour"] == "matmat":
+            res, a1, a2 = case["names"]
+            mat = lambda m: ["mat", names.id(m)] + [x for d in R.ARRAYS[m] for x in d]
+            line = ["matmat", fresh("i"), fresh("j"), fresh("ii"), mat(res), mat(a1), mat(a2)]
+            return line, (lambda ans: (R.block(ans) == real, ans))
         res, mat, vec = case["names"]
         (l1, u1), (l2, u2) = R.ARRAYS[mat]
         line = ["matvec", fresh("i"), fresh("j"), ["vec", names.id(res)] + list(R.ARRAYS[res][0]),
                 ["mat", names.id(mat), l1, u1, l2, u2], ["vec", names.id(vec)] + list(R.ARRAYS[vec][0])]
         return line, (lambda ans: (R.block(ans) == real, ans))
+    if kind == "misc" and case["flavour"] == "access2loop":
+        if ap.refused:
+            raise R.OutOfDomain("refused")
+        from psyclone.psyir.symbols import DataSymbol, INTEGER_TYPE
+        hole = DataSymbol(FRESH["hole"], INTEGER_TYPE)
+        tree = stmt.copy()
+        index = R.ex(stmt.lhs.indices[0], names)
+        for arr in tree.rhs.walk(N.ArrayReference):
+            if not arr.ancestor(N.ArrayReference):
+                arr.indices[0].replace_with(N.Reference(hole))
+        line = ["acc", fresh("idx"), names.id(stmt.lhs.name), index, R.ex(tree.rhs, names), names.id(FRESH["hole"])]
+        orig = R.block(minif.export_stmt(R.prep(stmt), names))
+        return line, (lambda ans: (R.block(ans[0]) == real and R.block(ans[1]) == orig, ans))
+    if kind == "misc" and case["flavour"] == "ref2range":
+        # every plain reference to a rank-1 array becomes the section with the declared bounds
+        olds = [r for r in stmt.walk(N.Reference) if type(r) is N.Reference and r.symbol.is_array
+                and not (isinstance(r.parent, N.IntrinsicCall) and r.parent.is_inquiry)]
+        news = [a for a in ap.new_stmts[-1].walk(N.ArrayReference) if all(isinstance(i, N.Range) for i in a.indices)]
+        if not olds or any(len(R.ARRAYS[r.name.lower()]) != 1 for r in olds):
+            raise R.OutOfDomain("no rank-1 whole-array reference")
+        line = ["ref2ranges"] + [["vec", names.id(r.name)] + list(R.ARRAYS[r.name.lower()][0]) for r in olds]
+        got = [R.sec_of(a, names) for a in news]
+        return line, (lambda ans: (ans == got, ans))
     raise R.OutOfDomain(kind)
 
 
@@ -683,7 +792,7 @@ def run(chk):
     findings = common.known_findings("C06")
     rng = chk.rng
     nb, bs = {"quick": (8, 24), "thorough": (100, 24)}[chk.tier]
-    gens = [case_aa] * 5 + [case_aa_elem] * 3 + [case_intr] * 4 + [case_red] * 5 + [case_red_self] * 3 + [case_dot] * 2 + [case_matmul] * 2 + [case_misc]
+    gens = [case_aa] * 4 + [case_aa_elem] * 3 + [case_aa2] * 3 + [case_intr] * 4 + [case_red] * 5 + [case_red_self] * 3 + [case_dot] * 2 + [case_matmul] * 2 + [case_misc]
     cparams = R.gen_params(__import__("random").Random(7))
     cparams["n"], cparams["k"] = 4, 2
     batches = [([dict(c) for c in CORPUS], cparams)]
